@@ -119,7 +119,9 @@ def hGenesis : Handler := fun j => do
     | some e =>
       -- C11: every well-formed genome with at least one gene and an output node is expressed (any mix of enabled and
       -- disabled genes) - a refusal here is a violation, not only a disagreement with the model
-      let wf := decide (WF g) && !g.genes.isEmpty && g.nodes.any (fun n => n.kind == Kind.output)
+      let ids := g.nodes.map (·.id)
+      let wf := !g.genes.isEmpty && g.nodes.any (fun n => n.kind == Kind.output) && ids.eraseDups.length == ids.length &&
+                g.genes.all (fun x => ids.contains x.src && ids.contains x.dst) && g.modules.isEmpty
       return { corr := false, spec := !wf, nontrivial := false, cls := "implRefused",
                detail := s!"implementation refuses with {e}, model builds",
                sig := if wf then "genesis:refusedWellFormed" else "" }
